@@ -38,7 +38,7 @@ INVARIANT CreatedOnce
 CHECK_DEADLOCK FALSE
 """
 SHAPES = ["truthy", "falsy_len", "falsy_bool", "eqall"]
-CREATORS = ["none", "ok", "failfirst", "wrongtype"]
+CREATORS = ["none", "ok", "failfirst", "wrongtype", "falsy"]
 MODES = {"S": "single", "N": "session", "P": "percall"}
 
 
@@ -74,6 +74,19 @@ def make_classes(shape, creator_kind, stats, inherit=False):
             def creator(clazz, K=K):
                 stats["creator_ok"][K] += 1
                 return clazz()
+        elif creator_kind == "falsy":
+            # a creator that is itself an empty container (callable, but falsy): still a creator
+            class FalsyCreator(object):
+                def __init__(self, K):
+                    self.K = K
+
+                def __len__(self):
+                    return 0
+
+                def __call__(self, clazz):
+                    stats["creator_ok"][self.K] += 1
+                    return clazz()
+            creator = FalsyCreator(K)
         elif creator_kind == "failfirst":
             def creator(clazz, K=K):
                 stats["creator_calls"][K] += 1
@@ -85,6 +98,14 @@ def make_classes(shape, creator_kind, stats, inherit=False):
             def creator(clazz, K=K):
                 stats["creator_calls"][K] += 1
                 return object()
+        if inherit == "override":
+            # the base class is declared with another mode (and no creator); the registered subclass declares its own on top
+            other = {"single": "percall", "session": "single", "percall": "session"}[mode]
+            base = P.behavior(instance_mode=other)(cls)
+            cls = type("Over_%s_%s" % (K, shape), (base,), {})
+            cls = P.behavior(instance_mode=mode, instance_creator=creator)(cls)
+            classes[K] = cls
+            continue
         cls = P.behavior(instance_mode=mode, instance_creator=creator)(cls)
         if inherit:
             # what gets registered is a plain subclass: exposure, instance mode and creator are all inherited
@@ -129,14 +150,14 @@ def end_connection(p, abortive):
     p._pyroRelease()
 
 
-def run_history(h, shape, creator_kind, servertype="multiplex", hookraise=False, two_daemons=False, abortive=False, inherit=False):
+def run_history(h, shape, creator_kind, servertype="multiplex", hookraise=False, two_daemons=False, abortive=False, inherit=False, rereg=False):
     import Pyro5.api as P
     from Pyro5 import config
     config.SERVERTYPE = servertype
     config.THREADPOOL_SIZE = 8
     config.THREADPOOL_SIZE_MIN = 1
     stats = new_stats()
-    tr = [{"e": "cfg", "creator": creator_kind}]
+    tr = [{"e": "cfg", "creator": "ok" if creator_kind == "falsy" else creator_kind}]      # (a falsy creator is a creator like any other)
 
     def main():
         sc = S.CUR
@@ -149,6 +170,11 @@ def run_history(h, shape, creator_kind, servertype="multiplex", hookraise=False,
         daemons = [(d, drv)]
         for si, step in enumerate(h):
             a, c, k = step["a"], step["c"], step["k"]
+            if rereg and si == len(h) // 2:
+                # the classes are unregistered and registered again half way: the daemon is the same, so is its one 'single' instance
+                for K, cls in classes.items():
+                    d.unregister(K)
+                    d.register(cls, K, force=True)
             if two_daemons and si == len(h) // 2:
                 # a second daemon in the same process takes over the same classes; the connections move to it
                 d2 = daemon_class(P, hookraise)(host="127.0.0.1")
@@ -277,16 +303,18 @@ def run(ctx):
             st = "thread" if i % 4 == 3 else "multiplex"
             two = i % 5 == 1        # a second daemon in the same process takes over half way
             ab = i % 7 in (2, 3)    # the connections end with a reset instead of an orderly close
-            inh = i % 6 in (1, 4)   # the registered classes inherit their behaviour from a base class
-            traces.append(run_history(h, shape, "none", servertype=st, hookraise=hr, two_daemons=two, abortive=ab, inherit=inh))
+            inh = {1: True, 4: True, 2: "override", 5: "override"}.get(i % 8, False)   # the classes inherit their behaviour / override an inherited one
+            rr = (not two) and i % 4 == 2     # unregistered and registered again half way
+            traces.append(run_history(h, shape, "none", servertype=st, hookraise=hr, two_daemons=two, abortive=ab, inherit=inh, rereg=rr))
             metas.append({"part": "history" + ("-threadserver" if st == "thread" else ""), "shape": shape, "creator": "none", "h": h, "hookraise": hr,
-                          "two_daemons": two, "abortive": ab, "inherit": inh})
+                          "two_daemons": two, "abortive": ab, "inherit": inh, "rereg": rr})
     for creator in CREATORS[1:]:
         for shape in ("truthy", "falsy_len"):
             for j, h in enumerate(hs[n_plain:n_plain + n_creator]):
-                inh = j % 3 == 1
-                traces.append(run_history(h, shape, creator, inherit=inh))
-                metas.append({"part": "history", "shape": shape, "creator": creator, "h": h, "inherit": inh})
+                inh = {1: True, 2: "override"}.get(j % 4, False)
+                rr = j % 5 == 3
+                traces.append(run_history(h, shape, creator, inherit=inh, rereg=rr))
+                metas.append({"part": "history", "shape": shape, "creator": creator, "h": h, "inherit": inh, "rereg": rr})
     if not ctx.quick:
         for shape in SHAPES:
             for h in hs[-150:]:
@@ -343,7 +371,7 @@ def replay(ctx, path):
             print("replay of race cases: rerun the check (schedules are re-explored)")
             continue
         tr = run_history(meta["h"], meta["shape"], meta["creator"], "thread" if "thread" in meta["part"] else "multiplex",
-                         hookraise=meta.get("hookraise", False), two_daemons=meta.get("two_daemons", False), abortive=meta.get("abortive", False), inherit=meta.get("inherit", False))
+                         hookraise=meta.get("hookraise", False), two_daemons=meta.get("two_daemons", False), abortive=meta.get("abortive", False), inherit=meta.get("inherit", False), rereg=meta.get("rereg", False))
         v, _ = tlc.validate(ctx, "Trace_Inst", [tr], cfg="Trace_Inst.cfg")
         print("replay:", meta["shape"], meta["creator"], "->", v[0] or "accepted")
         bad += bool(v[0])
